@@ -9,7 +9,8 @@ Verdict(e) ==
     CASE e.op = "id" -> [ presented_even_in_range |-> e.r = "ValueError" \/ (e.r = "ok" /\ Even(e.id) /\ Below2p31(e.id)),
                           in_range_kept |-> (~e.inrange) \/ (e.r = "ok" /\ e.id = <<e.req[1], e.req[2] - (e.req[2] % 2)>>) ]
       [] e.op = "keys" -> [ deterministic |-> e.same, split |-> e.aes = Take(e.digest, 16) /\ e.hmac = From(e.digest, 16),
-                            in_metadata |-> e.md_rand = e.aes_rand /\ e.md_bid = e.id ]
+                            in_metadata |-> e.md_rand = e.aes_rand /\ e.md_bid = e.id,     \* md_rand: the 16 bytes of the serialized metadata
+                            sixteen_bytes |-> Len(e.aes_rand) = 16 ]
       [] e.op = "sleep" -> [ upper |-> e.vfloor <= e.s, lower |-> 100 * e.vceil >= e.s * (100 - e.j) ]
       [] e.op = "metafit" -> [ ok |-> e.r = "ok", fits |-> e.len <= e.k - 11, blob_len |-> e.r # "ok" \/ e.blob = e.k ]
 Failed(v) == { x \in DOMAIN v : ~v[x] }
